@@ -132,6 +132,16 @@ def run(case, ctx, rng):
             if not is_exc(nets[t]):
                 ctx.eq('wb==crysp.des', call(nets[t][4].enc, Bs[0]), call(E.enc, Bs[0]), K=kk, B=Bs[0], des_object='re-keyed through K (%s)' % ('rebound' if t % 2 else 'refilled in place'))
                 ctx.eq('multi:wb==FIPS46-3', call(E.dec, rdes.enc(kk, Bs[1])), Bs[1], K=kk, des_object='re-keyed through K: dec')
+        # copying or serialising a live network leaves the original intact, and the copies are the same network
+        if not is_exc(nets[2]):
+            import copy, pickle
+            W0 = nets[2][4]; made = {}
+            for nm, f in (('copy.copy', copy.copy), ('copy.deepcopy', copy.deepcopy), ('pickle round trip', lambda x: pickle.loads(pickle.dumps(x)))):
+                r = call(f, W0)
+                if not is_exc(r): made[nm] = r
+                ctx.eq('multi:wb==FIPS46-3', call(W0.enc, Bs[2]), rdes.enc(keys[2], Bs[2]), K=keys[2], B=Bs[2], original_after=nm)
+            for nm, Wc in made.items():
+                ctx.eq('multi:wb==FIPS46-3', call(Wc.enc, Bs[1]), rdes.enc(keys[2], Bs[1]), K=keys[2], B=Bs[1], copy_made_by=nm)
         ctx.notes['programs'] += len(keys)
         if not is_exc(nets[0]) and not is_exc(nets[1]):
             W = nets[0][4]
